@@ -75,7 +75,7 @@ def fusion_backbone(out, desc, anno, genome, pool, donor, acc, tdicts, kw, canon
     ags = gene_seq_of(anno, genome, am)
     bp = int(fz.location.start)
     orf_start = (dd['orf'][0] if dd['orf'] else 0) + 3
-    desc.update(breakpoint_tx=bp, donor_orf=dd['orf'], donor_coding=dd['coding'])
+    desc.update(breakpoint_tx=bp, donor_orf=dd['orf'], donor_coding=dd['coding'], donor_sec=list(dd['sec']))
     out['stats']['coding_donor' if dd['coding'] else 'noncoding_donor'] = 1
     skip_fusion = bp < orf_start
     if skip_fusion:
@@ -100,7 +100,7 @@ def fusion_backbone(out, desc, anno, genome, pool, donor, acc, tdicts, kw, canon
         out['stats']['as_with_fusion'] = 1
         return False
     btx = {'seq': back, 'coding': dd['coding'], 'orf': dd['orf'], 'start_nf': dd['start_nf'],
-           'end_nf': am.is_mrna_end_nf(), 'sec': [s for s in dd['sec'] if s + 3 < bp],
+           'end_nf': am.is_mrna_end_nf(), 'sec': [s for s in dd['sec'] if s + 3 <= bp],
            'vars': bvars}
     if not skip_fusion:
         vf = var_field(bvars, idmap)
